@@ -182,6 +182,16 @@ def check_message(H, msg, ctx, replay):
         else:
             ctx.count(exp + "_raised")
         return None
+    # assigning indexes is idempotent: a message that already carries them (assigned twice, or relayed after parsing) encodes to
+    # the same bytes
+    ctx.count("messages_assigned_twice")
+    try:
+        again = bytes(assigned.assign_option_indexes().build())
+    except Exception as exc:  # noqa: B902
+        again = repr(exc)
+    if again != built:
+        ctx.violation("assigning-option-indexes-twice-changes-the-message", dict(first=built[:120], second=again[:120] if isinstance(again, bytes) else again,
+                                                                                summary=summary(msg)), replay)
     nopt = len(assigned.options)
     if nopt > 200:
         ctx.count("arrays_over_200_options")
